@@ -132,6 +132,18 @@ class JSON:
     def __init__(self, default: Callable[[Any], Any] | None = None):
         self.default = default
 
+    def _default(self, obj: object) -> object:
+        # A missing variable is nil (`null`), also inside an array or a hash;
+        # a strict undefined gets its chance to raise first.
+        if is_undefined(obj):
+            obj.poke()
+            return None
+        if self.default is not None:
+            return self.default(obj)
+        raise TypeError(
+            f"Object of type {obj.__class__.__name__} is not JSON serializable"
+        )
+
     def __call__(
         self,
         left: object,
@@ -140,7 +152,7 @@ class JSON:
         """Apply this filter to _left_ and return the result."""
         indent = int_arg(indent) if indent else None
         try:
-            return json.dumps(left, default=self.default, indent=indent)
+            return json.dumps(left, default=self._default, indent=indent)
         except (TypeError, ValueError) as err:
             raise LiquidTypeError(str(err), token=None) from err
         except (MemoryError, OverflowError) as err:
